@@ -13,10 +13,13 @@ package mp4
 // Definitional (assumed at call sites, never proved): a dynamic child.Encode(w) / child.EncodeSW(sw) extends the trace by
 // chEnc(child); EncodeHeader extends it by the same two chunks EncodeHeaderSW writes (size as 32-bit integer, type string).
 
+// Trace algebra (true of byte strings under concatenation): flattening a trace and appending it is appending its chunks.
+//@ pred trAxioms() = (forall t uint64 :: forall u uint64 :: forall c uint64 :: trApp(t, trFlat(trApp(u, c))) == trApp(trApp(t, trFlat(u)), c)) && (forall t uint64 :: trApp(t, trFlat(trEmpty())) == t)
+
 //@ spec trHdr(t uint64, size uint32, typ string) uint64 = trApp(trApp(t, chU(32, size)), chBytes(typ))
 //@ spec rec trKids(cs []Box, n int, t uint64) uint64 = ite(n <= 0, t, trApp(trKids(cs, n-1, t), chEnc(cs[n-1])))
 
-//@ schema boxEncode method ^Encode$ except ^(Fragment|MediaSegment|File|InitSegment|\w+Descriptor)\.
+//@ schema boxEncode method ^Encode$ except ^(Fragment|MediaSegment|File|InitSegment|\w*Descriptor|\w*SampleGroupEntry)\.
 //@   requires p1 != nil && boxOK(p0)
 //@   ensures[C02] result == nil ==> ghost(p1).wlen == old(ghost(p1).wlen) + int(p0.Size())
 //@   defines[C03] result == nil ==> ghost(p1).tr == trApp(old(ghost(p1).tr), chEnc(p0))
@@ -57,8 +60,94 @@ package mp4
 // Boxes of 2^48 bytes or more cannot be allocated; the wrappers are proved for smaller ones.
 //@ schema wrapperEnc method ^Encode$ only ^(AvcCBox|BtrtBox|CdatBox|ClapBox|Co64Box|CoLLBox|ColrBox|CslgBox|CttsBox|Dac3Box|Dec3Box|ElngBox|ElstBox|EmsgBox|EsdsBox|EvteBox|SilbBox|EmibBox|DataBox|FreeBox|FrmaBox|FtypBox|HdlrBox|KindBox|LevaBox|LoudnessBaseBox|MdhdBox|MehdBox|MfhdBox|MfroBox|MimeBox|MvhdBox|NmhdBox|PaspBox|PrftBox|PsshBox|SaioBox|SaizBox|SbgpBox|SchmBox|SdtpBox|SgpdBox|SidxBox|SmDmBox|SmhdBox|SsixBox|StcoBox|SthdBox|StppBox|StscBox|StssBox|StszBox|SttsBox|StypBox|SubsBox|TencBox|TfdtBox|TfhdBox|TfraBox|TkhdBox|TrefTypeBox|TrexBox|TrunBox|UnknownBox|URLBox|UUIDBox|VmhdBox|VppCBox|VttCBox|VlabBox|VsidBox|CtimBox|IdenBox|SttgBox|PaylBox|VttaBox)\.
 //@   assumes p0.Size() <= 1<<48
-//@   assumes forall c uint64 :: trFlat(trApp(trEmpty(), c)) == c
+//@   assumes trAxioms()
 //@   ensures[C03] result == nil ==> ghost(p1).tr == trApp(old(ghost(p1).tr), chEnc(p0))
 // their EncodeSW ends in "return sw.AccError()": success means no accumulated writer error
 //@ schema leafEncodeSW method ^EncodeSW$ only ^(AvcCBox|BtrtBox|CdatBox|ClapBox|Co64Box|CoLLBox|ColrBox|CslgBox|CttsBox|Dac3Box|Dec3Box|ElngBox|ElstBox|EmsgBox|EsdsBox|EvteBox|SilbBox|EmibBox|DataBox|FreeBox|FrmaBox|FtypBox|HdlrBox|KindBox|LevaBox|LoudnessBaseBox|MdhdBox|MehdBox|MfhdBox|MfroBox|MimeBox|MvhdBox|NmhdBox|PaspBox|PrftBox|PsshBox|SaioBox|SaizBox|SbgpBox|SchmBox|SdtpBox|SgpdBox|SidxBox|SmDmBox|SmhdBox|SsixBox|StcoBox|SthdBox|StppBox|StscBox|StssBox|StszBox|SttsBox|StypBox|SubsBox|TencBox|TfdtBox|TfhdBox|TfraBox|TkhdBox|TrefTypeBox|TrexBox|TrunBox|UnknownBox|URLBox|UUIDBox|VmhdBox|VppCBox|VttCBox|VlabBox|VsidBox|CtimBox|IdenBox|SttgBox|PaylBox|VttaBox)\.
 //@   ensures result == nil ==> p1.(*bits.FixedSliceWriter).accError == nil
+
+// ---- separately written pairs: one schema per type gives Encode and EncodeSW the same trace specification
+//@ spec vf(version byte, flags uint32) uint32 = (uint32(version) << 24) + flags
+
+//@ schema drefEnc method ^Encode(SW)?$ only ^DrefBox\.
+//@   ensures[C03] result == nil && encOK(p1) ==> ghost(p1).tr == trKids(p0.Children, len(p0.Children), trApp(trApp(trHdr(old(ghost(p1).tr), uint32(p0.Size()), p0.Type()), chU(32, vf(p0.Version, p0.Flags))), chU(32, uint32(p0.EntryCount))))
+//@   loop 1 invariant encOK(p1) ==> ghost(p1).tr == trKids(p0.Children, idx(1), trApp(trApp(trHdr(old(ghost(p1).tr), uint32(p0.Size()), p0.Type()), chU(32, vf(p0.Version, p0.Flags))), chU(32, uint32(p0.EntryCount))))
+
+//@ schema stsdEnc method ^Encode(SW)?$ only ^StsdBox\.
+//@   ensures[C03] result == nil && encOK(p1) ==> ghost(p1).tr == trKids(p0.Children, len(p0.Children), trApp(trApp(trHdr(old(ghost(p1).tr), uint32(p0.Size()), p0.Type()), chU(32, vf(p0.Version, p0.Flags))), chU(32, p0.SampleCount)))
+//@   loop 1 invariant encOK(p1) ==> ghost(p1).tr == trKids(p0.Children, idx(1), trApp(trApp(trHdr(old(ghost(p1).tr), uint32(p0.Size()), p0.Type()), chU(32, vf(p0.Version, p0.Flags))), chU(32, p0.SampleCount)))
+
+//@ schema trepEnc method ^Encode(SW)?$ only ^TrepBox\.
+//@   ensures[C03] result == nil && encOK(p1) ==> ghost(p1).tr == trKids(p0.Children, len(p0.Children), trApp(trApp(trHdr(old(ghost(p1).tr), uint32(p0.Size()), p0.Type()), chU(32, vf(p0.Version, p0.Flags))), chU(32, p0.TrackID)))
+//@   loop 1 invariant encOK(p1) ==> ghost(p1).tr == trKids(p0.Children, idx(1), trApp(trApp(trHdr(old(ghost(p1).tr), uint32(p0.Size()), p0.Type()), chU(32, vf(p0.Version, p0.Flags))), chU(32, p0.TrackID)))
+
+//@ spec metaPre(b *MetaBox, t uint64) uint64 = ite(b.isQuickTime, trHdr(t, uint32(b.Size()), b.Type()), trApp(trHdr(t, uint32(b.Size()), b.Type()), chU(32, vf(b.Version, b.Flags))))
+//@ schema metaEnc method ^Encode(SW)?$ only ^MetaBox\.
+//@   ensures[C03] result == nil && encOK(p1) ==> ghost(p1).tr == trKids(p0.Children, len(p0.Children), metaPre(p0, old(ghost(p1).tr)))
+//@   loop 1 invariant idx(1) <= len(p0.Children)
+//@   loop 1 invariant encOK(p1) ==> ghost(p1).tr == trKids(p0.Children, idx(1), metaPre(p0, old(ghost(p1).tr)))
+
+// moof: loop 1 is the data-offset check over the truns, loop 2 writes the children
+//@ schema moofEnc method ^Encode(SW)?$ only ^MoofBox\.
+//@   ensures[C03] result == nil && encOK(p1) ==> ghost(p1).tr == trKids(p0.Children, len(p0.Children), trHdr(old(ghost(p1).tr), uint32(p0.Size()), p0.Type()))
+//@   loop 1 invariant ghost(p1).tr == old(ghost(p1).tr)
+//@   loop 2 invariant encOK(p1) ==> ghost(p1).tr == trKids(p0.Children, idx(2), trHdr(old(ghost(p1).tr), uint32(p0.Size()), p0.Type()))
+
+//@ spec wvttPre(b *WvttBox, t uint64) uint64 = trApp(trApp(trHdr(t, uint32(b.Size()), b.Type()), chU(0, uint64(6))), chU(16, b.DataReferenceIndex))
+//@ schema wvttEnc method ^Encode(SW)?$ only ^WvttBox\.
+//@   assumes trAxioms()
+//@   ensures[C03] result == nil && encOK(p1) ==> ghost(p1).tr == trKids(p0.Children, len(p0.Children), wvttPre(p0, old(ghost(p1).tr)))
+//@   loop 1 invariant encOK(p1) ==> ghost(p1).tr == trKids(p0.Children, idx(1), wvttPre(p0, old(ghost(p1).tr)))
+
+//@ spec asePre(a *AudioSampleEntryBox, t uint64) uint64 = trApp(trApp(trApp(trApp(trApp(trApp(trApp(trHdr(t, uint32(a.Size()), a.Type()), chU(0, uint64(6))), chU(16, a.DataReferenceIndex)), chU(0, uint64(8))), chU(16, a.ChannelCount)), chU(16, a.SampleSize)), chU(0, uint64(4))), chU(32, makeFixed32Uint(a.SampleRate)))
+//@ schema aseEnc method ^Encode(SW)?$ only ^AudioSampleEntryBox\.
+//@   assumes trAxioms()
+//@   ensures[C03] result == nil && encOK(p1) ==> ghost(p1).tr == trKids(p0.Children, len(p0.Children), asePre(p0, old(ghost(p1).tr)))
+
+//@ spec vsePre(b *VisualSampleEntryBox, t uint64) uint64 = trApp(trApp(trApp(trApp(trApp(trApp(trApp(trApp(trApp(trApp(trApp(trApp(trApp(trApp(trHdr(t, uint32(b.Size()), b.Type()), chU(0, uint64(6))), chU(16, b.DataReferenceIndex)), chU(0, uint64(16))), chU(16, b.Width)), chU(16, b.Height)), chU(32, b.Horizresolution)), chU(32, b.Vertresolution)), chU(0, uint64(4))), chU(16, b.FrameCount)), chU(8, byte(len(b.CompressorName)))), chBytes(b.CompressorName)), chU(0, uint64(int(31 - byte(len(b.CompressorName)))))), chU(16, uint16(0x0018))), chU(16, uint16(0xffff)))
+//@ schema vseEnc method ^Encode(SW)?$ only ^VisualSampleEntryBox\.
+//@   assumes trAxioms()
+//@   ensures[C03] result == nil && encOK(p1) ==> ghost(p1).tr == trKids(p0.Children, len(p0.Children), vsePre(p0, old(ghost(p1).tr)))
+//@   loop 1 invariant encOK(p1) ==> ghost(p1).tr == trKids(p0.Children, idx(1), vsePre(p0, old(ghost(p1).tr)))
+
+// ---- init segments, fragments, media segments, files (not boxes: no header of their own)
+//@ schema segEnc method ^Encode(SW)?$ only ^(Fragment|MediaSegment|InitSegment)\.
+//@   defines[C03] result == nil && encOK(p1) ==> ghost(p1).tr == trApp(old(ghost(p1).tr), chEnc(p0))
+//@   ensures encOK(p1) ==> old(encOK(p1))
+
+//@ schema initEnc method ^Encode(SW)?$ only ^InitSegment\.
+//@   ensures[C03] result == nil && encOK(p1) ==> ghost(p1).tr == trKids(p0.Children, len(p0.Children), old(ghost(p1).tr))
+//@   loop 1 invariant idx(1) <= len(p0.Children)
+//@   loop 1 invariant encOK(p1) ==> ghost(p1).tr == trKids(p0.Children, idx(1), old(ghost(p1).tr))
+
+// Fragment: the children are written after the trun optimisation and data-offset update; the trace is stated over the
+// children as they are when written.
+//@ schema fragEnc method ^Encode(SW)?$ only ^Fragment\.
+//@   ensures[C03] result == nil && encOK(p1) ==> ghost(p1).tr == trKids(p0.Children, len(p0.Children), old(ghost(p1).tr))
+//@   loop 1 invariant idx(1) <= len(p0.Children)
+//@   loop 1 invariant encOK(p1) ==> ghost(p1).tr == trKids(p0.Children, idx(1), old(ghost(p1).tr))
+
+//@ spec rec trSidxs(xs []*SidxBox, n int, t uint64) uint64 = ite(n <= 0, t, trApp(trSidxs(xs, n-1, t), chEnc(xs[n-1])))
+//@ spec rec trFrags(xs []*Fragment, n int, t uint64) uint64 = ite(n <= 0, t, trApp(trFrags(xs, n-1, t), chEnc(xs[n-1])))
+//@ spec rec trSegs(xs []*MediaSegment, n int, t uint64) uint64 = ite(n <= 0, t, trApp(trSegs(xs, n-1, t), chEnc(xs[n-1])))
+
+//@ spec msegPre(s *MediaSegment, t uint64) uint64 = trSidxs(s.Sidxs, len(s.Sidxs), ite(s.Styp != nil, trApp(t, chEnc(s.Styp)), t))
+//@ schema msegEnc method ^Encode(SW)?$ only ^MediaSegment\.
+//@   ensures[C03] result == nil && encOK(p1) ==> ghost(p1).tr == trFrags(p0.Fragments, len(p0.Fragments), msegPre(p0, old(ghost(p1).tr)))
+//@   loop 1 invariant idx(1) <= len(p0.Sidxs)
+//@   loop 1 invariant encOK(p1) ==> ghost(p1).tr == trSidxs(p0.Sidxs, idx(1), ite(p0.Styp != nil, trApp(old(ghost(p1).tr), chEnc(p0.Styp)), old(ghost(p1).tr)))
+//@   loop 2 invariant idx(2) <= len(p0.Fragments)
+//@   loop 2 invariant encOK(p1) ==> ghost(p1).tr == trFrags(p0.Fragments, idx(2), msegPre(p0, old(ghost(p1).tr)))
+
+//@ spec filePre(f *File, t uint64) uint64 = trSidxs(f.Sidxs, len(f.Sidxs), ite(f.Init != nil, trApp(t, chEnc(f.Init)), t))
+//@ spec fileSegTr(f *File, t uint64) uint64 = ite(f.Mfra != nil, trApp(trSegs(f.Segments, len(f.Segments), filePre(f, t)), chEnc(f.Mfra)), trSegs(f.Segments, len(f.Segments), filePre(f, t)))
+//@ schema fileEnc method ^Encode(SW)?$ only ^File\.
+//@   ensures[C03] result == nil && encOK(p1) ==> ghost(p1).tr == ite(p0.isFragmented && p0.FragEncMode == EncModeSegment, fileSegTr(p0, old(ghost(p1).tr)), trKids(p0.Children, len(p0.Children), old(ghost(p1).tr)))
+//@   loop 1 invariant idx(1) <= len(p0.Sidxs)
+//@   loop 1 invariant encOK(p1) ==> ghost(p1).tr == trSidxs(p0.Sidxs, idx(1), ite(p0.Init != nil, trApp(old(ghost(p1).tr), chEnc(p0.Init)), old(ghost(p1).tr)))
+//@   loop 2 invariant idx(2) <= len(p0.Segments)
+//@   loop 2 invariant encOK(p1) ==> ghost(p1).tr == trSegs(p0.Segments, idx(2), filePre(p0, old(ghost(p1).tr)))
+//@   loop 3 invariant idx(3) <= len(p0.Children)
+//@   loop 3 invariant encOK(p1) ==> ghost(p1).tr == trKids(p0.Children, idx(3), old(ghost(p1).tr))
+//@   loop 4 invariant idx(4) <= len(p0.Children)
+//@   loop 4 invariant encOK(p1) ==> ghost(p1).tr == trKids(p0.Children, idx(4), old(ghost(p1).tr))
